@@ -261,7 +261,16 @@ func (b *OutboundBreaker) slide(now time.Time) {
 	for i := 0; i < ticks; i++ {
 		b.counts[i] = 0
 	}
-	b.updated = now
+	if len(b.counts) <= ticks {
+		// Everything has aged out of the window.
+		b.updated = now
+	} else {
+		// Only advance by the whole ticks we shifted.  The
+		// remainder still counts toward the next shift;
+		// otherwise a breaker that is polled more often than
+		// once per tick would never slide at all.
+		b.updated = b.updated.Add(time.Duration(int64(ticks) * resolution))
+	}
 }
 
 // ComboBreaker is a bunch of Breakers considered as one.
